@@ -258,7 +258,7 @@ def r02g(ck, fb):
             t0 = Taint(b, local_src=[m[0].dst] if isinstance(m[0].dst, int) else [])
             ck.require(m[0].dst == 0 or t0.local_tainted(0), 'R02g', fn + ':returns-mapped', m[0].where(), 'mapped result is not returned')
         sd = util.sends(b, r'RaftLogManagerRequest$')
-        ck.require(len(sd) == 1 and sd[0][0].callee.endswith('::send'), 'R02g', fn + ':send', b.where(), 'request is not sent with send().await')
+        ck.require(len(sd) >= 1 and all(_x[0].callee.endswith('::send') for _x in sd), 'R02g', fn + ':send', b.where(), 'request is not sent with send().await')
     b = ck.body('rnacos::raft::filestore::core::FileStore::write_log_result_to_result', 'R02g')
     if b:
         errs = b.aggregates(r'std::result::Result$', 'Err')
